@@ -26,7 +26,8 @@ from .core import Relation, err_kind
 
 PROP = "C06"
 CLAIMED = True
-COQ_MODULES = ["C06_Check", "C06_Proofs", "C06_Proofs2", "C06_Proofs3", "C06_Proofs4", "C06_Proofs5"]
+COQ_MODULES = ["C06_Check", "C06_Proofs", "C06_Proofs2", "C06_Proofs3", "C06_Proofs4", "C06_Proofs5", "C06_Proofs6",
+               "C06_Proofs7", "C06_Proofs8", "C06_Proofs9", "C06_Proofs10", "C06_Proofs11", "C06_Proofs12"]
 PROPERTY_MODULE = "C06_Property"
 ALLOWED_AXIOMS = []
 RULE = (
@@ -37,23 +38,35 @@ RULE = (
     "subset of what the reader's classes request, sorted and shuffled line orders, plain and gzip, comment lines "
     "inserted anywhere; non-trivial = at least one record line and (an inserted comment or a bound extra); a quarter "
     "of the read cases re-use one Haplotypes object (read file A, then point it at file B with another header "
-    "layout, or write over A and read again) and demand the result a fresh object gives for the file on disk. "
+    "layout, or write over A and read again) and demand the result a fresh object gives for the file on disk; one "
+    "case per run has a header of 255|256|257 declared columns of which three are requested. "
     "roundtrip: generated collections written, read back (same classes or classes asking for fewer extras) and "
     "written again, after which the same reader object reads its own file and writes it a third time (second "
-    "sub-case); non-trivial = at least one record. Distinct = distinct canonical JSON."
+    "sub-case); extras of every format letter the package's classes use (s, d, f) with and without width / sign / "
+    "precision specs; integers incl. 2^31-1|2^31, 2^32-1|2^32, 2^63-1|2^63, 2^64, 10^18; floats at the rounding "
+    "boundaries of .0f-.3f, with exponents, signed zero, nan, inf; ids with non-ASCII characters; one case per run "
+    "with 255|256|257 extras on one line type and one with a line of 1000..65537+ characters; non-trivial = at "
+    "least one record. Distinct = distinct canonical JSON."
 )
 TRUSTED = [
-    "tokenisation of non-'#' lines (line[0], line[1], line[2:].split('\\t')) and interning of field texts are done by the harness",
+    "tokenisation of non-'#' lines (line[0], line[1], line[2:].split('\\t')) and interning of field texts are done by the "
+    "harness (the character-level statement is C06_text_layer_roundtrip, a theorem about the model's split/join)",
     "Python int()/float()/format() results for each field text are computed by the harness and are inputs of the model "
-    "(codecs = Section variables with round-trip hypotheses in the theorems)",
+    "(codec hypotheses codec_data / codec_data2 in the theorems)",
     "log records are classified by the first words of their message",
 ]
 ASSUMPTIONS = [
-    "round trip: keys of Haplotypes.data equal the records' ids, ids distinct, repeats carry no variants, field texts "
-    "contain no tab / newline / carriage return, the classes' _extras name exactly their extra dataclass fields",
-    "codecs: parse(format(v)) = v for str and int fields; format(parse(format(x))) = format(x) for float fields",
+    "round trip (wf_cfg, wf_data, clean_cfg, clean_text): keys of Haplotypes.data equal the records' ids, ids distinct, "
+    "repeats carry no variants, the classes' _extras name exactly their extra dataclass fields; the version string and "
+    "the names of extra fields contain no tab, field texts no tab / newline / carriage return (C06_unclean_name_refuted, "
+    "C06_unclean_text_refuted: without this the written file does not say what the collection holds; the unchanged "
+    "writer writes such a file silently and the reader then raises - outside 'IDs and contigs over the permitted alphabet')",
+    "codecs: every written text converts back (reader's str/int/float) to the value it was formatted from; "
+    "format(parse(format(x))) = format(x) for the second write (hypothesis Forall2 same_toks_entry)",
     "binding: the header assigns each requested extra exactly one column (order line or declaration order without "
     "duplicates, not naming a mandatory field); record ids distinct",
+    "not generated: formats whose output Python's own parsers reject (zero-padded non-finite floats such as "
+    "format(nan, '08.3f') = '00000nan', thousands separators ',d')",
 ]
 
 LETTERS = "HVR"
@@ -399,11 +412,11 @@ def gen_cfg(rng, version, maxx=3, rich=True):
         for n in names:
             ty = str(rng.choice(["s", "d", "f"]))
             if ty == "s":
-                f = "s" if rng.random() < 0.9 else "4s"
+                f = "s" if rng.random() < 0.85 else str(rng.choice(["4s", ">6s", "<3s", "^5s", ".2s"]))
             elif ty == "d":
-                f = "d" if rng.random() < 0.85 else str(rng.choice(["03d", "5d", "+d"]))
+                f = "d" if rng.random() < 0.8 else str(rng.choice(["03d", "5d", "+d", "_d", " d", "<4d"]))
             else:
-                f = str(rng.choice([".2f", ".3f", "f", ".0f", "+.1f", "8.2f"]))
+                f = str(rng.choice([".2f", ".3f", "f", ".0f", "+.1f", "8.2f", ".2f", ".3f", ".1f", ".6f", "#.0f"]))
             desc = str(rng.choice(["", "Effect size", "a b", "Local ancestry", "x"]))
             extras.append([n, f, desc])
             fields.append([n, ty])
@@ -412,7 +425,7 @@ def gen_cfg(rng, version, maxx=3, rich=True):
     return cfg
 
 
-ID_CHARS = list("abchr12.*_-") + [" ", "#", "H", "V", ":", "+"]
+ID_CHARS = list("abchr12.*_-") + [" ", "#", "H", "V", ":", "+", "\u00e9", "\u03a9"]
 
 
 def gen_text(rng, short=False):
@@ -423,15 +436,29 @@ def gen_text(rng, short=False):
     return "".join(rng.choice(ID_CHARS, size=n).tolist())
 
 
+# positions and integer extras are Python ints (unbounded): values straddling the fixed widths a port to
+# numpy / C would introduce
+INT_EDGES = [2**31 - 1, 2**31, 2**32 - 1, 2**32, 2**63 - 1, 2**63, 2**64, 10**18, -(2**31) - 1, -(2**63)]
+
+
 def gen_int(rng):
+    if rng.random() < 0.12:
+        return int(INT_EDGES[int(rng.integers(0, len(INT_EDGES)))])
     return int(rng.choice([0, 1, 7, 10, 26928472, -5, 2**31 - 1, 10**12, int(rng.integers(0, 1000))]))
+
+
+# rounding boundaries of the declared formats (.0f .1f .2f .3f), ties, values whose repr needs an exponent,
+# signed zeros, non-finite values, the extremes of the binary64 range
+FLOAT_EDGES = [0.0, -0.0, 0.5, 1.5, 2.5, -0.5, 0.05, 0.25, 0.125, 0.375, 1 / 3, 1e-5, 1e-7, 0.005, 0.015, 0.045, 1.005,
+               2.675, 0.0005, 0.9995, 9.995, 99.95, 0.95, 1e15, 1e16, 1e22, 123456789.125, -7.25, 3.0, 5e-324,
+               2.2250738585072014e-308, 1.7976931348623157e308, float("inf"), float("-inf"), float("nan")]
 
 
 def gen_float(rng):
     r = rng.random()
     if r < 0.6:
         return float(round(rng.normal(), int(rng.integers(0, 5))))
-    return float(rng.choice([0.0, -0.0, 0.5, 1 / 3, 1e-5, 0.005, 0.015, 2.675, 1e22, -7.25, float("inf"), float("nan"), 3.0]))
+    return float(FLOAT_EDGES[int(rng.integers(0, len(FLOAT_EDGES)))])
 
 
 def gen_value(rng, ty):
@@ -575,6 +602,75 @@ def insert_comments(rng, lines, k=None, pool_impure=0.12):
         c = str(rng.choice(COMMENTS_IMPURE)) if rng.random() < pool_impure else str(rng.choice(COMMENTS_PURE))
         out.insert(int(rng.integers(0, len(out) + 1)), [c, True])
     return out
+
+
+WIDE_COUNTS = [127, 128, 253, 254, 255, 256, 257]
+
+
+def wide_cfg(ver, w, t="H"):
+    """a class with w extra fields x0..x{w-1} on line type t (types cycle d, s, f)"""
+    tys = ["d", "s", "f"]
+    fmts = {"d": "d", "s": "s", "f": ".2f"}
+    names = [f"x{i}" for i in range(w)]
+    cfg = {"version": ver}
+    for u in LETTERS:
+        cfg[u] = {"fields": [], "extras": []}
+    cfg[t] = {"fields": [[n, tys[i % 3]] for i, n in enumerate(names)],
+              "extras": [[n, fmts[tys[i % 3]], ""] for i, n in enumerate(names)]}
+    return cfg
+
+
+def gen_wide_roundtrip(rng, ver, tier="quick"):
+    """width boundary: a collection whose H or V class has 127..257 extra fields (a line of up to 262 columns);
+    positions at 2^31-1 | 2^32.  One record, first sub-case only (the literal is ~40 k characters)."""
+    w = int(rng.choice(WIDE_COUNTS if tier != "quick" else [255, 256, 257]))
+    t = str(rng.choice(["H", "V"]))
+    cfg = wide_cfg(ver, w, t)
+    vals = [["s", "1"], ["d", 2**31 - 1], ["d", 2**32], ["s", "wa"]]
+    vals += [gen_value(rng, ty) for _, ty in cfg["H"]["fields"]]
+    vs = []
+    if t == "V":
+        vs = [[["d", 2**31 - 2], ["d", 2**31 - 1], ["s", "v"], ["s", "A"]] + [gen_value(rng, ty) for _, ty in cfg["V"]["fields"]]]
+    return {"cfg": cfg, "rcfg": cfg, "same": True, "data": [["wa", "H", vals, vs]], "gz": False, "single": True}
+
+
+def gen_long_roundtrip(rng, ver):
+    """width boundary: one very long line (a str extra of 65535..65537 or 1000|1001 characters, a contig of 300, an id
+    of 255..257 characters); field texts are interned, so the literal stays small"""
+    n = int(rng.choice([255, 256, 257]))
+    m = int(rng.choice([1000, 1001, 4095, 4096, 4097, 65535, 65536, 65537]))
+    cfg = {"version": ver, "H": {"fields": [["anc", "s"]], "extras": [["anc", "s", "Local ancestry"]]},
+           "V": {"fields": [], "extras": []}, "R": {"fields": [], "extras": []}}
+    ident = "L" + "a" * (n - 1)
+    ents = [[ident, "H", [["s", "chr" + "1" * 300], ["d", 10**18], ["d", 10**18 + 1], ["s", ident], ["s", "q" * m]],
+             [[["d", 1], ["d", 2], ["s", "v" * m], ["s", "A"]]]],
+            ["h2", "H", [["s", "1"], ["d", 0], ["d", 1], ["s", "h2"], ["s", ""]], []]]
+    return {"cfg": cfg, "rcfg": cfg, "same": True, "data": ents, "gz": bool(rng.random() < 0.5)}
+
+
+def gen_wide_read(rng, ver, tier="quick", w=None):
+    """width boundary: a header declaring 127..257 columns of which the reader asks for the first, one in the
+    middle and the last (the others are skipped); declared in another order than the order line"""
+    w = w or int(rng.choice(WIDE_COUNTS if tier != "quick" else [255, 256, 257]))
+    names = [f"x{i}" for i in range(w)]
+    want = sorted(set([0, w // 2, w - 1]))
+    tys = {0: "d", w // 2: "s", w - 1: "f"}
+    fields = [[names[i], tys[i]] for i in want]
+    fields = [fields[i] for i in rng.permutation(len(fields)).tolist()]
+    cfg = {"version": ver, "H": {"fields": fields, "extras": [[n, {"d": "d", "s": "s", "f": ".2f"}[ty], ""] for n, ty in fields]},
+           "V": {"fields": [], "extras": []}, "R": {"fields": [], "extras": []}}
+    decl = [names[i] for i in rng.permutation(w).tolist()]
+    hdr = ["#\tversion\t" + ver, "#\torderH" + "".join("\t" + n for n in names)]
+    hdr += [f"#H\t{n}\t" + {"d": "d", "s": "s", "f": ".2f"}[tys.get(int(n[1:]), "d")] + "\t" for n in decl]
+    recs = []
+    for j, ident in enumerate(["h1", "h2"]):
+        toks = ["1", str(2**31 - 1 + j), str(2**32 + j), ident]
+        for i in range(w):
+            toks.append(gen_token(rng, tys.get(i, "d"), bad=0.0) if i in tys else str(i))
+        recs.append("H\t" + "\t".join(toks))
+    recs.append("V\th2\t1\t2\tv\tA")
+    return {"cfg": cfg, "lines": insert_comments(rng, hdr + recs, k=1), "sel": None, "gz": False}
+
 
 
 def current_version():
@@ -771,6 +867,9 @@ class Read(_Base):
                 lines = [[x, False] for x in ha + ra]
             out[(j * 3 + 1) % len(out)] = {"cfg": cfg, "lines": lines, "sel": None, "gz": bool(rng.random() < 0.2),
                                            "prior": {"lines": ha + ra, "op": op}}
+        # width-boundary stream: a header of 127..257 declared columns
+        for j in range(min(1 if tier == "quick" else 6, len(out) // 4)):
+            out[(3 * j) % len(out)] = gen_wide_read(rng, ver, tier)
         return out
 
     def exhaustive(self, tier):
@@ -828,6 +927,8 @@ class Read(_Base):
                f"inserted={sum(1 for _, i in inp['lines'] if i)}"]
         if inp["sel"] is not None:
             out.append("subset-of-ids")
+        if any(x.startswith("#\torder") and x.count("\t") > 100 for x in full):
+            out.append("header-of-127..257-columns")
         if inp.get("prior"):
             out.append("reused-object-" + inp["prior"]["op"] if isinstance(obs, dict) and obs.get("reused")
                        else "reused-object-first-read-failed")
@@ -961,6 +1062,11 @@ class Roundtrip(_Base):
             rcfg = cfg if same else sub_cfg(rng, cfg)
             out.append({"cfg": cfg, "rcfg": rcfg, "same": same or rcfg == cfg,
                         "data": gen_collection(rng, cfg, mal=0.03), "gz": bool(rng.random() < 0.3)})
+        # width-boundary stream: one wide and one long case per run (more in thorough)
+        k = 1 if tier == "quick" else 6
+        for j in range(min(k, len(out) // 4)):
+            out[(4 * j + 1) % len(out)] = gen_wide_roundtrip(rng, ver, tier)
+            out[(4 * j + 2) % len(out)] = gen_long_roundtrip(rng, ver)
         return out
 
     def exhaustive(self, tier):
@@ -1075,9 +1181,10 @@ class Roundtrip(_Base):
         if b2 is None:
             # nothing was read: the model's second write is of the empty collection; mirror what it cannot know
             b2 = {"err": 97}
-        first = (f"(mkw {E.cfg(inp['cfg'])} {E.cfg(inp['rcfg'])} {L.b(inp['same'])} {L.lst(data)} {lines(b1)} "
-                 f"{E.rout(rd)} {L.lst(d2)} {lines(b2)})")
-        if "read3" not in obs or "ok" not in b2 or "ok" not in rd or (rd["ok"]["data"] and not d2):
+        rcl = "c" if inp["rcfg"] == inp["cfg"] else E.cfg(inp["rcfg"])
+        first = (f"(let c := {E.cfg(inp['cfg'])} in let rc := {rcl} in mkw c rc {L.b(inp['same'])} {L.lst(data)} "
+                 f"{lines(b1)} {E.rout(rd)} {L.lst(d2)} {lines(b2)})")
+        if inp.get("single") or "read3" not in obs or "ok" not in b2 or "ok" not in rd or (rd["ok"]["data"] and not d2):
             return first
         # second sub-case: the reader object itself round-trips what it read (read; write; read again; write)
         r3 = obs["read3"]
@@ -1087,8 +1194,8 @@ class Roundtrip(_Base):
             if any(x is None for x in d3):
                 d3 = []
         b3 = obs.get("bytes3", {"err": 97})
-        rc = E.cfg(inp["rcfg"])
-        second = (f"(mkw {rc} {rc} true {L.lst(d2)} {lines(b2)} {E.rout(r3)} {L.lst(d3)} {lines(b3)})")
+        second = (f"(let rc := {E.cfg(inp['rcfg'])} in mkw rc rc true {L.lst(d2)} {lines(b2)} {E.rout(r3)} "
+                  f"{L.lst(d3)} {lines(b3)})")
         return [first, second]
 
     def nontrivial(self, inp, obs):
@@ -1103,6 +1210,28 @@ class Roundtrip(_Base):
         ks = [e[0] for e in inp["data"] if e[1] == "H"]
         if ks != sorted(ks):
             out.append("unsorted-haplotype-ids")
+        ncols = max(len(inp["cfg"][t]["fields"]) for t in LETTERS)
+        if ncols >= 100:
+            out.append("columns>255" if ncols + 5 > 255 else "columns-127..255")
+        if any(v[0] == "s" and len(v[1]) >= 1000 for e in inp["data"] for v in e[2]):
+            out.append("line-longer-than-1000" if max(len(v[1]) for e in inp["data"] for v in e[2] if v[0] == "s") < 4000
+                       else "line-longer-than-4096")
+        allv = [v for e in inp["data"] for v in e[2]] + [v for e in inp["data"] for vs in e[3] for v in vs]
+        ints = [v[1] for v in allv if v[0] == "d"]
+        if any(abs(z) >= 2**31 for z in ints):
+            out.append("int>=2^31")
+        if any(abs(z) >= 2**63 for z in ints):
+            out.append("int>=2^63")
+        if any(v[0] == "f" and float.fromhex(v[1]) in (2.675, 1.005, 0.125, 2.5, 0.045, 9.995) for v in allv):
+            out.append("float-at-rounding-boundary")
+        if any(v[0] == "f" and float.fromhex(v[1]) != float.fromhex(v[1]) for v in allv):
+            out.append("float-nan")
+        if any(v[0] == "s" and any(ord(ch) > 127 for ch in v[1]) for v in allv):
+            out.append("non-ascii-text")
+        for t in LETTERS:
+            if any(e[1] == t for e in inp["data"]) or (t == "V" and any(e[3] for e in inp["data"])):
+                for _, f, _ in inp["cfg"][t]["extras"]:
+                    out.append("format-" + f[-1] + ("" if len(f) == 1 else "-with-spec"))
         for k in ("bytes1", "read", "bytes2"):
             if isinstance(obs, dict) and "err" in obs.get(k, {}):
                 out.append(f"{k}-err{obs[k]['err']}")
@@ -1137,22 +1266,31 @@ LEVEL_TEXT = (
     "Coq theorems (all inputs, no size bound) about a Gallina model of the .hap reader and writer: '#' lines that are "
     "not header declarations never change check_header or read wherever and however often they are inserted; "
     "check_version reports exactly when the major differs or the minor is newer, and check_header/read carry that "
-    "report (also for a file without record lines); every requested extra field is read from the column its name has "
-    "in the order line (or declaration order), unrequested columns are skipped without shifting others; "
-    "expected-but-undeclared extras are reported; a record line written by to_hap_spec is read back by from_hap_spec "
-    "to the same attribute values under the codec contract, and what to_str writes depends only on keys, kinds, "
-    "structure and formatted texts. The model is tied to /repo on every run by evaluating, inside Coq, "
-    "model-vs-implementation agreement and the property's finite checkers on generated header-line sets, generated "
-    "files read through dynamically built Haplotype/Variant/Repeat subclasses (with and without inserted comment "
-    "lines), and generated collections written, read back and written again."
+    "report (also for a file without record lines); version strings int() cannot parse are never accepted; for every "
+    "accepted header the types dict of a line type is the reordering by the columns the header gives it "
+    "(C06_types_follow_header), so every requested extra field is read from the column its name has in the order line "
+    "(or declaration order) and unrequested columns are skipped without shifting others; expected-but-undeclared extras "
+    "are reported; WHOLE FILES: for every collection of haplotypes, repeats and variants and every extra-field "
+    "configuration, read (to_str d) returns d's records in order with their field values and variants and no warning "
+    "(C06_hap_roundtrip), also for a reader asking for any sub-selection of the extras (C06_hap_roundtrip_subreader), "
+    "values up to their declared format and the second write byte-identical (C06_hap_roundtrip_up_to_format, "
+    "C06_write_read_write_idem); where the V lines stand among the H/R lines is irrelevant "
+    "(C06_read_line_order_independent); splitting the written characters on newline / tab gives back the lines and "
+    "field texts when these contain no tab / newline / carriage return (C06_text_layer_roundtrip; refuted without). "
+    "The model is tied to /repo on every run by evaluating, inside Coq, model-vs-implementation agreement and the "
+    "property's finite checkers on generated header-line sets, generated files read through dynamically built "
+    "Haplotype/Variant/Repeat subclasses (with and without inserted comment lines), and generated collections "
+    "written, read back and written again."
 )
 LEVEL_NOTE = (
-    "Partial: the file-level round trip (read(to_str d) = d, write-read-write byte identity) is proved per record "
-    "line + reduced to the codec contract + one worked instance by computation; for whole files it is validated by the "
-    "roundtrip relation on every run, not by a general theorem. Trusted: Coq kernel/vm_compute; the hand-written model "
-    "(validated only differentially); tokenisation of record lines and the int()/float()/format() results of each "
-    "field are computed by the harness and are inputs of the model (codec contracts); log records are classified by "
-    "their first words; field texts are ASCII without tab/newline/carriage return. The tabix (indexed, region/subset) "
-    "branch of __iter__ is not modelled (C08/C11 territory)."
+    "Codec laws are hypotheses: the int()/float()/format() results of each field text are computed by the harness and "
+    "are inputs of the model, so 'every written text converts back to its value' (codec_data) and 'formatting the "
+    "value read gives the same text' (same_toks_entry) are assumed per value in the theorems and checked on every "
+    "generated value by the roundtrip relation. Trusted: Coq kernel/vm_compute; the hand-written model (validated "
+    "only differentially); tokenisation of record lines by the harness; log records are classified by their first "
+    "words. Out of scope by the property's own quantifier ('permitted alphabet'): field texts with tab / newline / "
+    "carriage return. The tabix (indexed, region/subset) branch of __iter__ is not modelled (C08/C11 territory); "
+    "gzip is exercised on the implementation side only; order lines that repeat a name or name a mandatory field "
+    "are agree-only."
 )
 TECHNIQUE = "Coq proof by induction on line lists / header folds + vm_compute-evaluated correspondence against the implementation"
